@@ -15,6 +15,8 @@ import LW.Generated.EirpTable
 import LW.Driver.AppOps
 import LW.Driver.BackendOps
 import LW.Driver.JSOps
+import LW.Driver.IsoOps
+import LW.Model.Checked
 namespace LW.Driver
 open LW LW.Canon
 
@@ -62,7 +64,9 @@ def runOp (st : DState) (op : String) (args : List String) : DState × String :=
       | some i => bytesOut i.enc
       | none => badop "item")
   | "stream" => (st, withArgs args (do let u ← boolean; let b ← hex; pure (u, b)) fun (u, b) =>
-      fmtOut (fun cs => " ".intercalate (fmtItems (cs.map Item.cmd))) (decodeStream st.reg u b))
+      -- the cursor-arithmetic transcription (LW.Model.Checked) must agree with the total decoder on every input
+      if Checked.stream st.reg u b != decodeStream st.reg u b then "MODEL-INCONSISTENT checked-stream"
+      else fmtOut (fun cs => " ".intercalate (fmtItems (cs.map Item.cmd))) (decodeStream st.reg u b))
   | "streamrt" => (st, withArgs args (do let u ← boolean; let is ← items; pure (u, is)) fun (u, is) =>
       fmtOut (fun (b, cs) => " ".intercalate (hx b :: fmtItems (cs.map Item.cmd)))
         (do let b ← encItems is; let cs ← decodeStream st.reg u b; pure (b, cs) : Outcome _))
@@ -78,7 +82,8 @@ def runOp (st : DState) (op : String) (args : List String) : DState × String :=
       match st.reg.lookup u c with
       | some e => s!"ok {e.size} {e.kind.name}"
       | none => "ERR")
-  | "phydec" => (st, withArgs args hex fun b => frameOut (PHY.dec b))
+  | "phydec" => (st, withArgs args hex fun b =>
+      if Checked.phyDec b != PHY.dec b then "MODEL-INCONSISTENT checked-phy" else frameOut (PHY.dec b))
   | "phyenc" => (st, withArgs args frame fun p => bytesOut p.enc)
   | "phycanon" => (st, withArgs args hex fun b =>
       match PHY.dec b with
@@ -176,6 +181,7 @@ def runOp (st : DState) (op : String) (args : List String) : DState × String :=
   | _ => if AppOps.isAppOp op then (st, AppOps.appQuery E op args)
          else if BackendOps.isBackendOp op then (st, BackendOps.backendQuery E op args)
          else if JSOps.isJSOp op then (st, JSOps.jsQuery E op args)
+         else if IsoOps.isIsoOp op then (st, IsoOps.isoQuery E st.reg op args)
          else (st, badop ("unknown " ++ op))
 
 end LW.Driver
